@@ -1,11 +1,11 @@
 #!/bin/bash
-# usage: rftest.sh <area>   — applies each behaviour-preserving refactor /tmp/rf/out/<area>/N.diff to a scratch worktree
+# usage: rftest.sh <area>   — applies each behaviour-preserving refactor ${RF_DIR:-/verif/refactors}/<area>/N.diff to a scratch worktree
 # and runs every check; any failing property is a false alarm to triage.
 export GOFLAGS=-mod=mod GOPROXY=off GOSUMDB=off GOTOOLCHAIN=local PATH=/opt/veriftools/go1.26.8/bin:$PATH; unset GOWORK
 A=$1; W=/tmp/rftest
 [ -d $W ] || git -C /repo worktree add -q --detach $W HEAD
 mkdir -p /tmp/vtmp3/checker/testdata && cp /verif/known_findings.json /tmp/vtmp3/ && ln -sfn /verif/checker/testdata/fixtures /tmp/vtmp3/checker/testdata/fixtures
-for f in /tmp/rf/out/$A/[0-9]*.diff; do
+for f in ${RF_DIR:-/verif/refactors}/$A/[0-9]*.diff; do
   git -C $W checkout -q --detach $(git -C /repo rev-parse HEAD) && git -C $W reset -q --hard && git -C $W clean -qfd
   if ! git -C $W apply $f 2>/dev/null; then echo "$A/$(basename $f): DOES-NOT-APPLY"; continue; fi
   out=$(/verif/bin/rqcheck -prop all -tier quick -repo $W -verif /tmp/vtmp3 2>&1)
